@@ -676,7 +676,7 @@ fn run_mini(m: &Mini, h: &Vec<Op>, drop_table: bool) -> Outcome
                 if drop_table && system.is_file(".ruler/current_file_states") { system.remove_file(".ruler/current_file_states").unwrap(); }
                 let sys2 = system.clone();
                 let (goal, scope) : (Option<&'static str>, Vec<&str>) = match op { Op::BuildGoal(g, sc) => (Some(*g), sc.to_vec()), _ => (None, m.targets.to_vec()) };
-                let result = match std::panic::catch_unwind(std::panic::AssertUnwindSafe(move || build(sys2, &mut EmptyPrinter::new(), params(goal))))
+                let (result, banners) = match std::panic::catch_unwind(std::panic::AssertUnwindSafe(move || { let mut pr = RecordingPrinter { banners: vec![], errors: vec![] }; let r = build(sys2, &mut pr, params(goal)); (r, pr.banners) }))
                 {
                     Ok(r) => r,
                     Err(_) => { complaints.push(("B-build-C05".to_string(), "build() panicked".to_string())); verdicts.push(false); continue; },
@@ -684,6 +684,15 @@ fn run_mini(m: &Mini, h: &Vec<Op>, drop_table: bool) -> Outcome
                 let ok = result.is_ok();
                 verdicts.push(ok);
                 let ran = system.get_command_log()[log_before..].len();
+                /*  C20: at most one status per target and build; 'Built' only in a build that ran a command; a successful build of
+                    everything reports every target exactly once */
+                for t in m.targets.iter()
+                {
+                    let lines : Vec<&String> = banners.iter().filter(|(_, p)| p == t).map(|(b, _)| b).collect();
+                    if lines.len() > 1 { complaints.push(("B-build-C20".to_string(), format!("{} status lines for {}: {:?}", lines.len(), t, lines))); }
+                    if ran == 0 && lines.iter().any(|l| l.as_str() == "Built") { complaints.push(("B-build-C20".to_string(), format!("{} reported Built in a build that ran no command", t))); }
+                    if ok && goal.is_none() && lines.is_empty() { complaints.push(("B-build-C20".to_string(), format!("successful build of everything: no status line for {}", t))); }
+                }
                 /*  the failure report as the user sees it (main prints the error with `{}`): every missing file is named in it */
                 if let Op::BuildReport(_, names) = op
                 {
@@ -870,6 +879,57 @@ tool.src
 manual.txt
 :
 ";
+const RULES_STAMP : &str = "\
+stamp
+:
+nothing.src
+:
+mycat
+nothing.src
+stamp
+:
+
+words.txt
+:
+words.src
+:
+mycat
+words.src
+words.txt
+:
+";
+const RULES_TWICE : &str = "\
+out
+\tpoem.txt
+out/poem.txt
+:
+verse.txt
+:
+mycat
+verse.txt
+out/poem.txt
+:
+";
+fn many_rules(n: usize) -> String
+{
+    let mut out = String::new();
+    for i in 0..n { out.push_str(&format!("chapter{:02}.txt\n:\ndraft{:02}.txt\n:\nmycat\ndraft{:02}.txt\nchapter{:02}.txt\n:\n\n", i, i, i, i)); }
+    out.push_str("book.txt\n:\n");
+    for i in 0..n { out.push_str(&format!("chapter{:02}.txt\n", i)); }
+    out.push_str(":\nmycat\n");
+    for i in 0..n { out.push_str(&format!("chapter{:02}.txt\n", i)); }
+    out.push_str("book.txt\n:\n");
+    out
+}
+fn many_files(n: usize) -> Vec<(&'static str, &'static str)>
+{
+    (0..n).map(|i| { let p : &'static str = Box::leak(format!("draft{:02}.txt", i).into_boxed_str()); let c : &'static str = Box::leak(format!("draft number {}\n", i).into_boxed_str()); (p, c) }).collect()
+}
+fn many_targets(n: usize) -> Vec<&'static str>
+{
+    let mut v : Vec<&'static str> = (0..n).map(|i| { let p : &'static str = Box::leak(format!("chapter{:02}.txt", i).into_boxed_str()); p }).collect();
+    v.push("book.txt"); v
+}
 const RULES_EQUAL : &str = "\
 joined.txt
 :
@@ -981,6 +1041,28 @@ fn verif_build_mini_scenarios()
                    vec![Build, Write("b.src", "Q\n"), Write("tail.src", "tail two\n"), Build, Write("b.src", "P\n"), Build],
                    vec![Build, Write("a.src", "Q\n"), Write("c.src", "P\n"), Build, Clean, Build],
                ] },
+        /*  a target that holds no bytes at all (a stamp file): it comes back from the cache like any other */
+        Mini { name: "an empty target", rules: RULES_STAMP, files: &[("nothing.src", ""), ("words.src", "words\n")], dirs: &[],
+               targets: &["stamp", "words.txt"],
+               histories: vec![
+                   vec![Build, Build, Clean, Build],
+                   vec![Build, Write("nothing.src", "something\n"), Build, Write("nothing.src", ""), Build],
+                   vec![Build, Delete("stamp"), Build],
+               ] },
+        /*  one target reached twice by the target lines of one rule (plainly and through a directory group): such a rules file is
+            refused; whatever happens, no target gets two status lines */
+        Mini { name: "a target spelled twice in one rule", rules: RULES_TWICE, files: &[("verse.txt", "Roses are red.\n")], dirs: &["out"],
+               targets: &["out/poem.txt"],
+               histories: vec![
+                   vec![Build, Write("verse.txt", "Violets are blue.\n"), Build, Write("verse.txt", "Roses are red.\n"), Build],
+               ] },
+        /*  more rules than any fixed pool of threads: 40 independent rules and one that needs them all */
+        Mini { name: "forty-one rules", rules: Box::leak(many_rules(40).into_boxed_str()), files: Box::leak(many_files(40).into_boxed_slice()), dirs: &[],
+               targets: Box::leak(many_targets(40).into_boxed_slice()),
+               histories: vec![
+                   vec![Build, Clean, Build],
+                   vec![Build, Build],
+               ] },
         Mini { name: "several rules fail alike", rules: RULES_FAILS, files: &[("in.txt", "input\n")], dirs: &[],
                targets: &["left.txt", "right.txt", "middle.txt", "far.txt", "further.txt"],
                histories: vec![
@@ -1074,7 +1156,7 @@ fn run_random(seed: u64, drop_table: bool, names: &[&'static str]) -> (Vec<bool>
     for _ in 0..4 { rng.next(); }
     let target_pool = ["a.txt", ".a.txt", "b.txt", "..b.txt", "out/c.txt", "out/sub/d.txt", "out/.c.txt", "lib/libe.a", "e.a", "f"];
     let leaf_pool = ["s1.txt", ".s1.txt", "s2.txt", "src/s3.txt", "src/.s3.txt"];
-    let contents = ["one\n", "two\n", "three\n", "\n", "one\ntwo\n"];
+    let contents = ["one\n", "two\n", "three\n", "", "one\ntwo\n"];
     /*  the rule graph */
     let nrules = 2 + rng.below(4);
     let mut free : Vec<&str> = target_pool.to_vec();
